@@ -96,7 +96,8 @@ theorem dv_of_dropVoids (cfg : Cfg) (al : Bool) {fs : Fields} {offs : List (Opti
     while no bit run is open -/
 theorem planOKAux_dv (cfg : Cfg) (al : Bool) (salign : Nat) (plan : Plan) (hh : plan.head? ≠ some .bitsReset)
     (st : VSt) (hd : st.dirty = false) (fs1 fs2 : Fields) (offs1 offs2 : List (Option Nat))
-    (h : dv cfg al fs1 offs1 st.spos = dv cfg al fs2 offs2 st.spos) :
+    (h : dv cfg al fs1 offs1 st.spos = dv cfg al fs2 offs2 st.spos)
+    (hs : (∃ r, dropVoids cfg al fs2 offs2 st.spos = some r) ∨ ∀ o, plan.head? ≠ some (.seek o)) :
     planOKAux cfg al salign plan fs1 offs1 st = planOKAux cfg al salign plan fs2 offs2 st := by
   unfold dv at h
   cases h1 : dropVoids cfg al fs1 offs1 st.spos with
@@ -109,7 +110,10 @@ theorem planOKAux_dv (cfg : Cfg) (al : Bool) (salign : Nat) (plan : Plan) (hh : 
       | cons i is =>
         cases i with
         | bitsReset => exact absurd rfl hh
-        | seek o => simp only [planOKAux, h1, h2]
+        | seek o =>
+          rcases hs with ⟨r, hr⟩ | hs
+          · rw [h2] at hr; cases hr
+          · exact absurd rfl (hs o)
         | align a => simp only [planOKAux, h1, h2]
         | alignCls => cases is <;> simp only [planOKAux, h1, h2]
         | sub nm => simp only [planOKAux, h1, h2]
